@@ -231,7 +231,7 @@ func checkC17(tier string) int {
 	}
 	nACL := len(cases)
 	for _, m := range []string{"GET", "PUT"} {
-		for _, remote := range []string{"127.0.0.1:5000", "127.255.255.254:1", "128.0.0.1:1", "10.1.2.3:9", "[::1]:4000", "garbage", "10.0.0.1"} {
+		for _, remote := range []string{"127.0.0.1:5000", "127.255.255.254:1", "128.0.0.1:1", "10.1.2.3:9", "[::1]:4000", "garbage", "10.0.0.1", "[fe80::1%eth0]:50000", "[::ffff:127.0.0.1]:80", "[::ffff:10.9.9.9]:80", ":80", "localhost:80", "[::1%lo]:1"} {
 			for _, cidr := range []string{"", "127.0.0.1/8", "10.0.0.0/8", "::1/128"} {
 				cases = append(cases, aCase{"cidr", mustJSON(nsqadmin.CIDRSpec{Method: m, Remote: remote, CIDR: cidr})})
 			}
@@ -286,12 +286,12 @@ func checkC18(tier string) int {
 									if mask&(1<<i) == 0 {
 										continue
 									}
-									t := nsqadmin.MTopic{Name: []string{"ta", "tb"}[ti], Depth: next(), Msgs: next()}
+									t := nsqadmin.MTopic{Name: []string{"ta", "tb#ephemeral"}[ti], Depth: next(), Msgs: next()}
 									switch layout {
 									case 1:
 										t.Channels = []nsqadmin.MChannel{mkChan("c", i+ti)}
 									case 2:
-										t.Channels = []nsqadmin.MChannel{mkChan("c", i), mkChan(fmt.Sprintf("d%d", i%2), i+1)}
+										t.Channels = []nsqadmin.MChannel{mkChan("c", i), mkChan(fmt.Sprintf("d%d#ephemeral", i%2), i+1)}
 									}
 									n.Topics = append(n.Topics, t)
 								}
@@ -358,10 +358,10 @@ func checkC18(tier string) int {
 								if mask&(1<<i) == 0 {
 									continue
 								}
-								t := nsqadmin.MTopic{Name: []string{"ta", "tb"}[ti], Depth: next(), Msgs: next()}
+								t := nsqadmin.MTopic{Name: []string{"ta", "tb#ephemeral"}[ti], Depth: next(), Msgs: next()}
 								t.Channels = []nsqadmin.MChannel{mkChan("c", i+ti)}
 								if layout == 2 {
-									t.Channels = append(t.Channels, mkChan(fmt.Sprintf("d%d", i%2), i+1))
+									t.Channels = append(t.Channels, mkChan(fmt.Sprintf("d%d#ephemeral", i%2), i+1))
 								}
 								n.Topics = append(n.Topics, t)
 							}
